@@ -64,7 +64,64 @@ func checkConstraintSystemOrigin(p *core.Program, r *core.Report) {
 					continue
 				}
 				n++
-				for _, o := range ssaOrigins(s.Val, nil) {
+				var origins []originLeaf
+				var expand func(v ssa.Value, depth int)
+				expand = func(v ssa.Value, depth int) {
+					for _, o := range ssaOrigins(v, nil) {
+						// a builder handed in as a function value (setupWith(build, depth, batch)): the functions every call site passes
+						if c, isCall := o.V.(*ssa.Call); isCall && depth < 3 {
+							if prm, isPrm := c.Common().Value.(*ssa.Parameter); isPrm {
+								idx := -1
+								for i, q := range prm.Parent().Params {
+									if q == prm {
+										idx = i
+									}
+								}
+								resolved := idx >= 0
+								var fns []*ssa.Function
+								for _, caller := range p.RepoFuncs() {
+									for _, cb := range caller.Blocks {
+										for _, ci := range cb.Instrs {
+											cc, ok := ci.(ssa.CallInstruction)
+											if !ok || cc.Common().StaticCallee() != prm.Parent() || idx >= len(cc.Common().Args) {
+												continue
+											}
+											av := cc.Common().Args[idx]
+											for {
+												ct, isCT := av.(*ssa.ChangeType)
+												if !isCT {
+													break
+												}
+												av = ct.X
+											}
+											if f, isFn := av.(*ssa.Function); isFn && len(f.Blocks) > 0 {
+												fns = append(fns, f)
+											} else {
+												resolved = false
+											}
+										}
+									}
+								}
+								if resolved && len(fns) > 0 {
+									for _, f := range fns {
+										for _, fb := range f.Blocks {
+											if ret, ok := fb.Instrs[len(fb.Instrs)-1].(*ssa.Return); ok && len(ret.Results) > 0 {
+												expand(ret.Results[0], depth+1)
+											}
+										}
+									}
+									continue
+								}
+								if !resolved {
+									continue // a builder this analysis cannot name: not judged
+								}
+							}
+						}
+						origins = append(origins, o)
+					}
+				}
+				expand(s.Val, 0)
+				for _, o := range origins {
 					if c, isCall := o.V.(*ssa.Call); isCall {
 						if sc := c.Common().StaticCallee(); sc != nil && sc.String() == "github.com/consensys/gnark/frontend.Compile" && o.Index <= 0 {
 							continue
